@@ -104,7 +104,7 @@ def moveaxis_expr(rng):
         src = [a - rmin if rng.random() < 0.5 else a for a in src]
         dst = [a - rmin if rng.random() < 0.5 else a for a in dst]
     m2 = MoveAxisOperator(tuple(src), tuple(dst), in_structure=s)
-    mode = rng.choice(['literal', 'respelt', 'respelt', 'other'])
+    mode = rng.choice(['literal', 'respelt', 'respelt', 'other', 'one-side-shared', 'one-side-shared'])
     if mode == 'literal':
         s1, d1 = tuple(dst), tuple(src)
     elif mode == 'respelt':
@@ -114,6 +114,20 @@ def moveaxis_expr(rng):
             flip[0] = True
         s1 = tuple((a - r if a >= 0 else a + r) if f else a for a, f in zip(dst, flip[:k]))
         d1 = tuple((a - r if a >= 0 else a + r) if f else a for a, f in zip(src, flip[k:]))
+    elif mode == 'one-side-shared':
+        # a relay: the second move starts where the first one arrived (or arrives where it started) without undoing it
+        if rng.random() < 0.5:
+            s1 = tuple(dst)
+            d1 = tuple(rng.sample(range(rmin), k))
+            if d1 == tuple(src):
+                d1 = tuple((a + 1) % rmin for a in d1)
+        else:
+            d1 = tuple(src)
+            s1 = tuple(rng.sample(range(rmin), k))
+            if s1 == tuple(dst):
+                s1 = tuple((a + 1) % rmin for a in s1)
+        if len(set(a % rmin for a in s1)) != k or len(set(a % rmin for a in d1)) != k:
+            s1, d1 = tuple(rng.sample(range(rmin), k)), tuple(rng.sample(range(rmin), k))
     else:
         s1 = tuple(rng.sample(range(rmin), k))
         d1 = tuple(rng.sample(range(rmin), k))
